@@ -22,7 +22,7 @@ import (
 )
 
 func init() {
-	register(&Prop{ID: "C09", Module: "V.C09.Check", Gen: c09Gen, Quick: 1000, Thorough: 12000, Shard: 70})
+	register(&Prop{ID: "C09", Module: "V.C09.Check", Gen: c09Gen, Quick: 800, Thorough: 12000, Shard: 70})
 }
 
 const c09Main = "index.d2"
@@ -407,8 +407,76 @@ func (g *c09G) label() string {
 func ind(d int) string { return strings.Repeat("  ", d) }
 
 // statements of the core fragment: nested keys, labels, maps, connections
+// c09EdgeLife tracks one connection class (same end points and arrows) through declarations and null
+// deletions: d2ir numbers a new connection with the count of the matching ones that exist and never
+// renumbers after a removal, d2graph recounts; live holds the IR indexes that still exist.
+type c09EdgeLife struct {
+	s, a, t string
+	live    []int
+}
+
+func (g *c09G) newEdgeLife() *c09EdgeLife {
+	return &c09EdgeLife{s: g.keyPath(2), a: g.r.Pick(c09Arrows), t: g.keyPath(2)}
+}
+
+// declare the connection k more times
+func (l *c09EdgeLife) declare(g *c09G, d int, k int, b *strings.Builder) {
+	for i := 0; i < k; i++ {
+		switch {
+		case g.r.Chance(0.15):
+			fmt.Fprintf(b, "%s%s %s %s: %s\n", ind(d), l.s, l.a, l.t, g.label())
+		case g.r.Chance(0.1):
+			fmt.Fprintf(b, "%s%s %s %s\n", ind(d), strings.ToUpper(l.s), l.a, strings.ToLower(l.t))
+		default:
+			fmt.Fprintf(b, "%s%s %s %s\n", ind(d), l.s, l.a, l.t)
+		}
+		l.live = append(l.live, len(l.live))
+	}
+}
+
+// remove one of the live connections by its index, preferably not the last one
+func (l *c09EdgeLife) remove(g *c09G, d int, b *strings.Builder) {
+	if len(l.live) == 0 {
+		return
+	}
+	j := g.r.Intn(len(l.live))
+	if len(l.live) > 1 && g.r.Chance(0.7) {
+		j = g.r.Intn(len(l.live) - 1)
+	}
+	fmt.Fprintf(b, "%s(%s %s %s)[%d]: null\n", ind(d), l.s, l.a, l.t, l.live[j])
+	l.live = append(l.live[:j], l.live[j+1:]...)
+}
+
+// a life cycle: parallel declarations, removals of some (mostly not the last), re-declarations, ...
+func (l *c09EdgeLife) steps(g *c09G, d int, rounds int, b *strings.Builder) {
+	for i := 0; i < rounds; i++ {
+		switch g.r.Intn(5) {
+		case 0, 1:
+			l.declare(g, d, g.r.Range(1, 3), b)
+		case 2, 3:
+			l.remove(g, d, b)
+		default:
+			// an unrelated statement in between
+			fmt.Fprintf(b, "%s%s\n", ind(d), g.keyPath(2))
+		}
+	}
+}
+
+func (g *c09G) edgeLifeStmt(d int, b *strings.Builder) {
+	l := g.newEdgeLife()
+	l.declare(g, d, g.r.Range(2, 4), b)
+	l.remove(g, d, b)
+	if g.r.Chance(0.3) {
+		l.remove(g, d, b)
+	}
+	l.declare(g, d, g.r.Range(1, 2), b)
+	l.steps(g, d, g.r.Range(0, 4), b)
+}
+
 func (g *c09G) coreStmt(d int, b *strings.Builder) {
 	switch p := g.r.Intn(100); {
+	case p < 6:
+		g.edgeLifeStmt(d, b)
 	case p < 30:
 		fmt.Fprintf(b, "%s%s\n", ind(d), g.keyPath(3))
 	case p < 40:
@@ -718,6 +786,8 @@ func c09GenProgram(r *Rng, full bool, hostile float64) c09Prog {
 var c09Corpus = []c09Prog{
 	{Text: "a; b; a.x\n", Core: true},
 	{Text: "a -> b -> c\nb -> a\na -> b\n", Core: true},
+	{Text: "a -> b\na -> b\na -> b\n(a -> b)[1]: null\na -> b\n(a -> b)[0]: null\na -> b\na -> b\n", Core: true},
+	{Text: "c: {x <- y; x <- y; (x <- y)[0]: null; x <- y}\nscenarios: {s: {c: {(x <- y)[1]: null; x <- y; x <- y}}}\n"},
 	{Text: "a -> b\na -> b\nA -> B\na -> b\na <- b\na -- b\na -- b\na -- b\nx: {a -> b; a -> b; a -> b; a -> b}\n", Core: true},
 	{Text: "A; a; a.B; A.b.c\n", Core: true},
 	{Text: "İ; i; I; ı\n", Core: true},
